@@ -107,3 +107,22 @@ for _id, _extra, _lt in [
     META[_id] = {"level": "exploration", "rule": MUX_RULE + _extra, "real": MUX_REAL, "stub": MUX_STUB, "assumptions": MUX_ASSUME}
     LEVEL_TEXT[_id] = _lt
     NOT_APPLICABLE.pop(_id, None)
+
+META["C07"] = {"level": "exploration",
+   "rule": "each run draws a muxer configuration, a write script, the number of writes before Close (0 = before data), up to 10 concurrent requests of every blocking and non-blocking kind (multivariant and media playlists waiting for first content, blocking reload, preload hint, segment) and an armed subset of the yield hooks in Close, in the server dispatch, in the preload-hint handler and between Unlock and Broadcast; the scheduler interleaves Close's steps with the wake-up of each waiter and with new requests. Non-trivial = at least one client request was issued; distinct = distinct scheduler decision/observation signatures.",
+   "real": MUX_REAL, "stub": MUX_STUB,
+   "assumptions": MUX_ASSUME + ["media playlist names used before the first content exists are guessed; a wrong guess reaches no handler and only reduces coverage"]}
+LEVEL_TEXT["C07"] = ("Seeded exploration of Close against every mix of pending requests, with the scheduler deciding the order of Close's "
+   "steps and each waiter's wake-up at guarded yield points; after Close returns every request must be complete, the mutex free "
+   "(TryLock accessor), later requests answered and the Directory empty. Sampling of schedules.")
+NOT_APPLICABLE.pop("C07", None)
+
+META["C06"] = {"level": "exploration",
+   "rule": "Low-Latency muxer; each run draws a configuration, a write script, up to 12 concurrent requesters and an armed subset of the yield hooks between Unlock and Broadcast, in the server dispatch and in the preload-hint handler. Every request is generated relative to the playlist current at issue time (expired, head, gap entry, past, last complete, open segment with existing/next/next+1/far part, open+1, open+2.., far future; with/without _HLS_part, _HLS_skip, extra query parameters, junk numbers, preload-hint GETs). Safety is checked on every response, bounded liveness at every rest point where the writer is between operations, delta updates against the full playlist of the same instant. Non-trivial = at least one client request; distinct = distinct scheduler decision/observation signatures.",
+   "real": MUX_REAL, "stub": MUX_STUB, "assumptions": MUX_ASSUME + [
+       "a 400 for the oldest listed media sequence number is accepted either way (the pinned test TestMuxerExpiredSegment fixes it)"]}
+LEVEL_TEXT["C06"] = ("Seeded exploration of writer/requester interleavings of a Low-Latency muxer with (M,P) chosen relative to the live "
+   "playlist; responses are checked for containing the requested segment/part or being a justified 400, pending requests for "
+   "published targets are flagged at rest (lost wake-up), preload-hint bodies are compared with the listed part, delta updates "
+   "with the full playlist of the same instant. Sampling of schedules and histories.")
+NOT_APPLICABLE.pop("C06", None)
